@@ -240,6 +240,78 @@ fn field<const P: u128>(acc: &mut Acc, name: &str, vals: &[u128], all_triples: b
             }
         }
     }
+    // elements with histories: the value an operation returns is an object that later operations consume.
+    // Every expression (a o1 b) o3 (c o2 d) and ((a o1 b) o2 c) o3 d over a slice of the alphabet and
+    // o in {+, -, *} is evaluated on the real type without re-creating the intermediate results and
+    // compared with integer arithmetic (an unreduced or otherwise non-canonical intermediate value shows
+    // only when it meets another one)
+    if !crate::core::disabled("expr") {
+        let sl: Vec<FiniteField<P>> = if el.len() <= 7 {
+            el.to_vec()
+        } else {
+            // (0, 1, the largest residue and the two around P/2 are always in the slice)
+            let mut idx: Vec<usize> = (0..el.len()).step_by((el.len() / 5).max(1)).collect();
+            idx.extend([0, 1, el.len() - 1, el.len() - 2]);
+            for (i, e) in el.iter().enumerate() {
+                if e.value() == P / 2 || e.value() == P / 2 + 1 {
+                    idx.push(i);
+                }
+            }
+            idx.sort();
+            idx.dedup();
+            idx.into_iter().map(|i| el[i]).collect()
+        };
+        let op = |o: usize, x: FiniteField<P>, y: FiniteField<P>| -> FiniteField<P> {
+            match o {
+                0 => x + y,
+                1 => x - y,
+                _ => x * y,
+            }
+        };
+        let rop = |o: usize, x: u128, y: u128| -> u128 {
+            match o {
+                0 => addmod_ref(x, y, P),
+                1 => submod_ref(x, y, P),
+                _ => mulmod_ref(x, y, P),
+            }
+        };
+        let names = ['+', '-', '*'];
+        'e: for &a in sl.iter() {
+            for &b in sl.iter() {
+                for &c in sl.iter() {
+                    for &d in sl.iter() {
+                        for ops in 0..27usize {
+                            let (o1, o2, o3) = (ops % 3, (ops / 3) % 3, ops / 9);
+                            acc.rep.evaluations += 2;
+                            let want1 = rop(o3, rop(o1, a.value(), b.value()), rop(o2, c.value(), d.value()));
+                            let want2 = rop(o3, rop(o2, rop(o1, a.value(), b.value()), c.value()), d.value());
+                            let got = eval2(|| {
+                                let r1 = op(o3, op(o1, a, b), op(o2, c, d));
+                                let r2 = op(o3, op(o2, op(o1, a, b), c), d);
+                                (r1.value(), r2.value(), r1 == FiniteField::<P>::new(want1), r2 == FiniteField::<P>::new(want2))
+                            });
+                            match got {
+                                Ok((v1, v2, e1, e2)) => {
+                                    if v1 != want1 || !e1 {
+                                        acc.fail(&ty, "expression-is-modular", format!("({} {} {}) {} ({} {} {}) = {} (mod {}), integer arithmetic gives {} (== with the right element: {})", a.value(), names[o1], b.value(), names[o3], c.value(), names[o2], d.value(), v1, P, want1, e1));
+                                        break 'e;
+                                    }
+                                    if v2 != want2 || !e2 {
+                                        acc.fail(&ty, "expression-is-modular", format!("(({} {} {}) {} {}) {} {} = {} (mod {}), integer arithmetic gives {} (== with the right element: {})", a.value(), names[o1], b.value(), names[o2], c.value(), names[o3], d.value(), v2, P, want2, e2));
+                                        break 'e;
+                                    }
+                                }
+                                Err(p) => {
+                                    acc.fail(&ty, "expression-is-modular", format!("an expression over {} {} {} {} with operators {}{}{} panicked: {}", a.value(), b.value(), c.value(), d.value(), names[o1], names[o2], names[o3], p));
+                                    break 'e;
+                                }
+                            }
+                        }
+                    }
+                }
+            }
+        }
+    }
     if all_triples {
         semiring_laws(acc, &ty, &el, true);
     } else {
